@@ -17,7 +17,9 @@ const TARGET_KINDS: [&str; 12] = [
     // item-level decorators that send the definition through another writer of a backend
     "newtype-kotlin-jvminline", "alias-kotlin-jvminline-redacted", "struct-swift-decorated-redacted",
 ];
-const POSITIONS: [&str; 27] = [
+const POSITIONS: [&str; 28] = [
+    // next to a struct variant that has no members left (its helper type is still referred to)
+    "payload-next-to-a-struct-variant-without-members",
     // one type expression that mentions a parameter of the (generic) referrer and the target
     "param-and-target-in-pair-field", "param-and-target-in-map-payload", "param-and-target-in-variant-field", "param-and-target-in-alias",
     "array", "vec-of-array", "slice",
@@ -201,6 +203,13 @@ pub fn program(c: &Case) -> File {
             );
             i.generics = vec!["T".into(), "U".into()];
             i
+        }
+        "payload-next-to-a-struct-variant-without-members" => {
+            let mut hidden = Field::new("hidden", Ty::Prim("u32"));
+            hidden.skip = Skip::Serde;
+            let mut hidden2 = Field::new("hidden_too", Ty::Prim("String"));
+            hidden2.skip = Skip::Typeshare;
+            Item::enumm("Referrer", vec![Variant::new("Sv", VKind::Struct(vec![hidden, hidden2])), Variant::new("Empty", VKind::Struct(vec![])), Variant::new("P", VKind::Newtype(t)), Variant::new("U", VKind::Unit)])
         }
         "param-and-target-in-pair-field" => {
             items.push(pair(false));
